@@ -29,6 +29,7 @@ type localCtx struct {
 	pending    [][]bool
 	reads      []readRec
 	origin     map[*Term][]*Term
+	originRev  map[*Term]*Term
 	usedContext bool // the local run consulted facts of the outer path: result not cacheable
 }
 
@@ -314,6 +315,7 @@ func (m *Machine) summarize(fn *ssa.Function, args []Value, env []Value, caller 
 		ctx.trace = ctx.trace[:0]
 		ctx.guard = ctx.guard[:0]
 		ctx.origin = nil
+		ctx.originRev = nil
 		v, status := m.runLocal(ctx, fn, args, env, caller)
 		switch status {
 		case 0: // ok
